@@ -139,6 +139,8 @@ module N :
 
   val ltb : n -> n -> bool
 
+  val min : n -> n -> n
+
   val max : n -> n -> n
 
   val div2 : n -> n
@@ -207,6 +209,8 @@ module Z :
   val add : z -> z -> z
 
   val opp : z -> z
+
+  val sub : z -> z -> z
 
   val mul : z -> z -> z
 
@@ -967,6 +971,8 @@ val king_legals : bool -> board -> color -> n -> entry list
 
 val collect_moves : board -> n -> entry list
 
+val collect_king_moves : board -> color -> entry list
+
 type movegen = { g_moves : entry list; g_promo : n; g_mask : n; g_index : nat }
 
 val mg_new : entry list -> n -> movegen
@@ -974,6 +980,8 @@ val mg_new : entry list -> n -> movegen
 val legals_gen : board -> movegen
 
 val legals_masked_gen : board -> n -> movegen
+
+val king_legals_gen : board -> color -> movegen
 
 val live : movegen -> entry -> bool
 
@@ -1085,6 +1093,91 @@ val write_rank : board -> n -> n list
 val write_rights : n -> n list
 
 val write_fen : board -> n list
+
+type threefold = (board * n) list
+
+val tf_key_eqb : board -> board -> bool
+
+val tf_get : threefold -> board -> n
+
+val sat8 : n -> n
+
+type blist = (board * n) list
+
+val bl_count : blist -> threefold -> board -> n
+
+val bl_new : threefold -> board -> blist
+
+val bl_add : blist -> threefold -> board -> blist
+
+val bl_head_count : blist -> n
+
+val zcount : n -> z
+
+val score_pieces : board -> color -> z
+
+val dist_from_edge : n -> n
+
+val eval_endgame : board -> color -> z
+
+val eval : board -> score
+
+val insufficient_material : board -> bool
+
+val worst : color -> score
+
+val is_better : color -> score -> score -> bool
+
+val upd_alpha : color -> score -> score -> score
+
+val upd_beta : color -> score -> score -> score
+
+val mate_score : color -> n -> score
+
+val sat_sub1 : n -> n
+
+type sst = { s_polls : n; s_evals : n }
+
+val bump_eval : sst -> sst
+
+val bump_poll : sst -> sst
+
+type ares =
+| AVal of score * sst
+| ATimeout
+| AFuel
+
+val expired : n -> sst -> bool
+
+val alphabeta :
+  n -> threefold -> nat -> color -> board -> move -> n -> n -> score -> score
+  -> blist -> sst -> ares
+
+type rres =
+| RVal of score * move option * score * score * sst
+| RTimeout
+| RFuel
+
+val root_phase :
+  n -> threefold -> nat -> color -> board -> n -> move list -> score -> move
+  option -> score -> score -> sst -> rres
+
+type pass_result =
+| PassTimeout
+| PassFuel
+| PassDone of score * move option * sst
+
+val pass :
+  n -> threefold -> nat -> board -> n -> move option -> sst -> pass_result
+
+val is_mate_score : score -> bool
+
+val deepen :
+  n -> threefold -> nat -> nat -> board -> n -> move option -> score -> n ->
+  sst -> ((move option * score) * n) * bool
+
+val search :
+  n -> threefold -> nat -> nat -> board -> ((move option * score) * n) * bool
 
 val api_score_cmp : score -> score -> comparison
 
@@ -1331,3 +1424,10 @@ val api_mg_remove : movegen -> n -> movegen
 val api_mg_remove_move : movegen -> move -> movegen * bool
 
 val api_mk_move : n -> n -> piece option -> move
+
+val api_search :
+  n -> nat -> nat -> board -> ((move option * score) * n) * bool
+
+val api_nat_of_N : n -> nat
+
+val api_score_neg2 : score -> score
